@@ -120,6 +120,37 @@ var handRoots = []string{
 	"rnbqkbnr/ppp1pppp/8/8/3pP3/8/PPPP1PPP/RNBQKBNR b KQkq e3 0 3",
 	"8/6bb/8/8/R1pP2k1/4P3/P7/K7 b - d3 0 1",
 	"8/8/8/8/1k1pP2R/8/8/K7 b - e3 0 1",
+	// C01: en-passant targets on the edge files with an own pawn on the square a shift without file
+	// mask would wrap to (h4 for a6, a6 for h6, h3 for a3, a5 for h3), next to a real capturer
+	"4k3/8/8/pP6/7P/8/8/4K3 w - a6 0 2",
+	"4k3/8/P7/6Pp/8/8/8/4K3 w - h6 0 2",
+	"4k3/8/8/8/Pp6/7p/8/4K3 b - a3 0 1",
+	"4k3/8/8/p7/6pP/8/8/4K3 b - h3 0 1",
+	// C01: long castling with b1/b8 occupied (illegal) and with b1/b8 merely attacked (legal)
+	"r3k2r/8/8/8/8/8/8/RN2K2R w KQkq - 0 1",
+	"rn2k2r/8/8/8/8/8/8/R3K2R b KQkq - 0 1",
+	"4k3/8/8/8/8/8/1r6/R3K2R w KQ - 0 1",
+	"r3k2r/1R6/8/8/8/8/8/4K3 b kq - 0 1",
+	// C01: king and rooks at home but the rights belong to the other side only / to nobody
+	"r3k2r/8/8/8/8/8/8/R3K2R w kq - 0 1",
+	"r3k2r/8/8/8/8/8/8/R3K2R b KQ - 0 1",
+	"r3k2r/8/8/8/8/8/8/R3K2R w - - 0 1",
+	// C01: castling rights while the king is in check (no castling out of check)
+	"4k3/8/4r3/8/8/8/8/R3K2R w KQ - 0 1",
+	"r3k2r/8/8/8/8/8/4R3/4K3 b kq - 0 1",
+	// C01: en-passant capture that would open the rank (both pawns leave it), for both colours; the
+	// capturer pinned on the diagonal it captures along (legal), on the other diagonal and on the
+	// file (illegal)
+	"8/8/8/K1pP3r/8/8/8/7k w - c6 0 2",
+	"7K/8/8/8/k1Pp3R/8/8/8 b - c3 0 1",
+	"b3k3/8/8/2pP4/8/5K2/8/8 w - c6 0 2",
+	"4k3/5b2/8/2pP4/8/1K6/8/8 w - c6 0 2",
+	"3rk3/8/8/2pP4/8/8/8/3K4 w - c6 0 2",
+	// C01: black double pushes with the square in front blocked / the target blocked; promotions by
+	// capture on both edges
+	"4k3/pppppppp/N1b1R3/1B3q2/8/8/8/4K3 b - - 0 1",
+	"1n2k1n1/P6P/8/8/8/8/p6p/1N2K1N1 w - - 0 1",
+	"1n2k1n1/P6P/8/8/8/8/p6p/1N2K1N1 b - - 0 1",
 }
 
 var roots []string
